@@ -133,7 +133,7 @@ def matrix_one(n, ids):
         return n, None
     res = {}
     for pid in ids:
-        rc, out = sh('VERIF_REPO=%s ./check %s --tier quick' % (work, pid), VERIF, timeout=1800)
+        rc, out = sh('VERIF_REPO=%s ./check %s --tier quick' % (work, pid), SNAP[0] or VERIF, timeout=1800)
         fired = [l for l in out.split('\n') if l.startswith('VIOLATION')]
         inst = [l.strip() for l in out.split('\n') if l.startswith('  instance')]
         res[pid] = {'exit': rc, 'violations': len(fired), 'instances': inst[:5],
@@ -147,7 +147,26 @@ def matrix_one(n, ids):
     return n, (caught, broken)
 
 
+SNAP = [None]
+
+
 def cmd_matrix(par=4, only=None):
+    from concurrent.futures import ThreadPoolExecutor
+    # run the checks from a frozen copy of the verification code, so that /verif can be edited while the matrix runs
+    snap = '/tmp/verif-snap-%d' % os.getpid()
+    shutil.rmtree(snap, ignore_errors=True); os.makedirs(snap)
+    for item in ('check', 'lib', 'props', 'tools', 'baseline', 'witness', 'known_findings.json', 'MANIFEST.json', 'properties.jsonl'):
+        src = os.path.join(VERIF, item)
+        if os.path.isdir(src): shutil.copytree(src, os.path.join(snap, item), ignore=shutil.ignore_patterns('__pycache__'))
+        elif os.path.exists(src): shutil.copy2(src, os.path.join(snap, item))
+    SNAP[0] = snap
+    try:
+        return _matrix(par, only)
+    finally:
+        shutil.rmtree(snap, ignore_errors=True)
+
+
+def _matrix(par, only):
     from concurrent.futures import ThreadPoolExecutor
     names = sorted(n for n in os.listdir(SEEDED) if os.path.exists(os.path.join(SEEDED, n, 'patch.diff')) and (not only or n in only))
     ids = claimed()
